@@ -313,8 +313,66 @@ def lean_result_split(types, v):
     return [v[0]] + lean_result_split(types[1:], v[1])
 
 
+UNIT_NAMES = ["m", "km", "mm", "s", "K", "degC", "L/m**2", "Pa", "N/m**2", ""]
+
+
+def validate_units(rng, n, res):
+    """the unit-pair memo functions on real pint units: the module's global dict is set to a random memo (also with
+    wrong entries, as a stale memo would have), the real function is called, and the answer and the dict afterwards
+    are compared with the translated definition (which receives pint's answer for the pair as a parameter)"""
+    import numpy as np
+    import pint
+    import finam.data.tools.units as um
+
+    units = [fm.UNITS.Unit(x) for x in UNIT_NAMES]
+    stats = {}
+    reqs, expect = [], []
+    saved = dict(um._UNIT_PAIRS_CACHE)
+    try:
+        for fn_name, lean in (("_cache_units", "cache_units"), ("compatible_units", "compatible_units"),
+                              ("equivalent_units", "equivalent_units")):
+            if not common.TRANSLATION_STATUS.get(lean, {}).get("translated"):
+                continue
+            for _ in range(n):
+                a, b = rng.randrange(len(units)), rng.randrange(len(units))
+                keys = [(rng.randrange(len(units)), rng.randrange(len(units))) for _ in range(rng.randint(0, 4))]
+                if rng.random() < 0.4:
+                    keys.append((a, b))
+                memo = {}
+                for k in keys:
+                    memo[k] = (rng.random() < 0.5, rng.random() < 0.5)
+                try:
+                    conv = bool(np.isclose((1.0 * units[a]).to(units[b]).magnitude, 1.0))
+                except pint.errors.DimensionalityError:
+                    conv = None
+                um._UNIT_PAIRS_CACHE.clear()
+                um._UNIT_PAIRS_CACHE.update({(units[i], units[j]): v for (i, j), v in memo.items()})
+                try:
+                    r = getattr(um, fn_name)(units[a], units[b])
+                    idx = {id(u): i for i, u in enumerate(units)}
+                    after = [[[units.index(k[0]), units.index(k[1])], [bool(v[0]), bool(v[1])]] for k, v in um._UNIT_PAIRS_CACHE.items()]
+                    want = {"ok": [([bool(r[0]), bool(r[1])] if fn_name == "_cache_units" else bool(r)), after]}
+                except Exception as e:  # noqa
+                    want = {"err": err_class(e)}
+                # two distinct Unit objects that compare equal ('Pa' / 'N/m**2' are different units; '' only once) share a key
+                reqs.append({"fn": lean, "args": [a, b, [[[i, j], [bool(v[0]), bool(v[1])]] for (i, j), v in memo.items()], conv]})
+                expect.append((lean, want))
+    finally:
+        um._UNIT_PAIRS_CACHE.clear()
+        um._UNIT_PAIRS_CACHE.update(saved)
+    for (lean, want), got, rq in zip(expect, _trdriver(reqs) if reqs else [], reqs):
+        st = stats.setdefault(lean, {"cases": 0, "mismatch": 0})
+        st["cases"] += 1
+        if want != got:
+            st["mismatch"] += 1
+            res.diverge("translation/" + lean, rq, want, got)
+    res.extra.setdefault("translation_validation", {}).update(stats)
+
+
 def validate(prop, rng, n_per_fn, res):
     """runs the validation for the translated functions owned by `prop`; divergences go to `res`"""
+    if prop == "C17" and os.path.exists(TRDRIVER):
+        validate_units(rng, n_per_fn, res)
     owned = {sp["lean"] for sp in trspecs.SPECS if prop in sp["props"]}
     if prop in ("C01", "C02", "C04") and {"find_dependencies", "update_recursive"} <= owned and os.path.exists(TRDRIVER) \
             and all(common.TRANSLATION_STATUS.get(f, {}).get("translated") for f in
